@@ -41,7 +41,7 @@ INJECT_KANI = {
         "lib.rs": [("verif_support", "harness/agent/support.rs")],
         "policies/mod.rs": [("verif_policies", "harness/agent/policies.rs")],
         "policies/fetch.rs": [("verif_fetch", "harness/agent/fetch.rs")],
-        "task.rs": [("verif_task", "harness/agent/task.rs")],
+        "task.rs": [("verif_task", "harness/agent/task.rs"), ("verif_task_slice", "harness/agent/task_slice.rs")],
         "cli.rs": [("verif_cli", "harness/agent/cli.rs")],
         "netconf/mod.rs": [("verif_client", "harness/agent/client.rs")],
     },
@@ -326,6 +326,22 @@ def snapshot_harness_dirs(out):
             shutil.copytree(src, dst)
 
 
+def slice_c19(out, log):
+    """C19: generate harness/agent/task_slice.rs (in the build dir) from the current task.rs"""
+    import slice_task
+    tpl = os.path.join(out, "harness", "agent", "task_slice.rs.in")
+    src = os.path.join(out, "junos-agent", "src", "task.rs")
+    dst = os.path.join(out, "harness", "agent", "task_slice.rs")
+    try:
+        with open(src) as fh, open(tpl) as th:
+            text, parts = slice_task.generate(fh.read(), th.read())
+        with open(dst, "w") as fh:
+            fh.write(text)
+        log.append({"file": "task.rs", "slice": parts})
+    except Exception as e:  # shape not recognised: no slice module -> harnesses INCONCLUSIVE
+        log.append({"file": "task.rs", "slice_error": str(e)})
+
+
 def inject(out, crate, table, cfg, log):
     for rel, mods in table.get(crate, {}).items():
         p = os.path.join(out, crate, "src", rel)
@@ -362,6 +378,8 @@ def main():
         copy_src(args.repo, crate, args.out, kani, rewrite_log)
         # in the agent build the netconf crate is a plain dependency: its harness modules are
         # left out (they are sized for the 14-slot vcollections of the netconf build)
+        if kani and crate == "junos-agent":
+            slice_c19(args.out, inject_log)
         if not (kani and crate == "netconf" and "junos-agent" in crates):
             inject(args.out, crate, INJECT_KANI if kani else INJECT_NATIVE, "kani" if kani else "test", inject_log)
         if crate == "netconf":
